@@ -28,7 +28,7 @@ EOS = "▪"
 RULE = (
     "case = history: (grammar BOOL or FLOAT, object kind in Earley / rescaled Earley / IncrementalCKY / "
     "EarleyLM / rescaled EarleyLM / CKYLM / BoolCFGLM[earley|cky]) + up to 20 (30 thorough) operations "
-    "p_next / call / chart / clear_cache / grammar transformation / cold long context (520-700 tokens) / one sweep over all contexts of length <= 2 in a drawn order, "
+    "p_next (with a fresh tuple, or with the caller's own list edited in place) / call / chart / clear_cache / the parser underneath a language model / grammar transformation / cold long context (520-700 tokens) / one sweep over all contexts of length <= 2 in a drawn order, "
     "contexts drawn as extension, sibling or prefix of earlier contexts, repeats or fresh strings; after "
     "every step the answer is compared with a fresh object's answer and the grammar snapshot with the "
     "initial one; non-trivial = the history contains a sibling extension after a longer query, a "
@@ -37,7 +37,7 @@ RULE = (
 ASSUMPTIONS = [
     "model answers come from fresh library objects (the oracle is the library itself on a fresh object, which is exactly what the property states); correctness of the answers is C01-C04",
     "the model answer for a long context is produced by a fresh object warmed incrementally (200 tokens per step)",
-    "FLOAT answers are compared with rtol 1e-10 (same operations in the same order), Boolean answers exactly",
+    "FLOAT answers are compared with rtol 1e-8 + atol 1e-11 (same algorithm, but generated nonterminal names and hence set orders differ between the two grammar objects, and the library's fixed points stop at an absolute 1e-12), Boolean answers exactly",
     "contexts are over V u {EOS}; CPython's default recursion limit (1000) is in force",
 ]
 PROTECT = ("init",)
@@ -102,13 +102,25 @@ def make(kind, cfg):
 IS_LM = {"EarleyLM", "EarleyLM_R", "CKYLM", "BoolLM_e", "BoolLM_c"}
 
 
-def query(kind, obj, op):
+def query(kind, obj, op, buf=None):
     "perform a query op on an object; returns a comparable plain value"
     name = op[0]
     if name == "clear":
         obj.clear_cache()
         return None
     c = tuple(op[1])
+    if name == "p_next_buf":
+        # the caller's own mutable list, edited in place between queries when the length allows
+        arg = c if (buf is None or kind in ("CKY", "CKYLM", "BoolLM_c")) else buf  # the CKY parser keys its cache by the context itself (tuples only)
+        if kind in ("Earley", "EarleyR"):
+            return plain(obj.next_token_weights(obj.chart(arg)))
+        return plain(obj.p_next(arg))
+    if name == "model_call":
+        # the parser underneath a language model: weight of the context as a complete string
+        m = obj.model.model if kind == "BoolLM_c" else obj.model
+        return plain(m(c))
+    if name == "model_logp":
+        return plain(obj.model.logp(c))
     if name in ("p_next", "long"):
         if kind in ("Earley", "EarleyR"):
             return plain(obj.next_token_weights(obj.chart(c)))
@@ -150,7 +162,12 @@ def same(a, b):
         if isinstance(a, (int, float)) and isinstance(b, (int, float)):
             if math.isnan(a) or math.isnan(b):
                 return False
-            return abs(a - b) <= 1e-10 * max(abs(a), abs(b)) + 1e-300
+            if a == b:  # also +-inf
+                return True
+            # The used and the fresh object run the same algorithm, but on grammar objects whose
+            # generated nonterminal names differ (a global counter), hence in a different set order;
+            # the library's fixed points stop at an absolute 1e-12, so values agree to ~1e-12 absolute
+            return abs(a - b) <= 1e-8 * max(abs(a), abs(b)) + 1e-11
         return False
     return a == b
 
@@ -172,9 +189,9 @@ class default_stack:
         return False
 
 
-def guarded_query(kind, obj, op):
+def guarded_query(kind, obj, op, buf=None):
     with default_stack():
-        return query(kind, obj, op)
+        return query(kind, obj, op, buf)
 
 
 class Sim:
@@ -191,6 +208,7 @@ class Sim:
         self.obj = ctx.call(f"init[{self.kind}]", make, self.kind, self.cfg) if self.snap0 is not None else LibRaised(None)
         self.dead = isinstance(self.obj, LibRaised)
         self.memo = {}
+        self.buf = []
         self.maxlen_seen = 0
         self.cleared = False
         self.seen = set()
@@ -220,7 +238,16 @@ class Sim:
         if name == "pure":
             self._pure(op)
         else:
-            have = ctx.call(f"{name}[{self.kind}]", guarded_query, self.kind, self.obj, op)
+            buf = None
+            if name == "p_next_buf":
+                new = list(tuple(op[1]))
+                if len(new) == len(self.buf):
+                    self.buf[:] = new  # same object, new content
+                    ctx.cls("same_list_edited_in_place")
+                else:
+                    self.buf = new
+                buf = self.buf
+            have = ctx.call(f"{name}[{self.kind}]", guarded_query, self.kind, self.obj, op, buf)
             if name == "clear":
                 self.cleared = True
                 ctx.cls("op:clear")
@@ -372,6 +399,24 @@ def run_machine(tier, hseed, n_examples, account, process, state):
         @rule(data=st.data())
         def p_next(self, data):
             self._do(["p_next", list(self._context(data))])
+
+        @rule(data=st.data())
+        def p_next_same_list(self, data):
+            "p_next on the caller's own list object; consecutive queries of equal length edit it in place"
+            c = self._context(data)
+            if self.case["ops"] and self.case["ops"][-1][0] == "p_next_buf" and data.draw(st.booleans()):
+                prev = self.case["ops"][-1][1]
+                toks = self.V
+                if prev and toks:
+                    c = tuple(prev[:-1]) + (data.draw(st.sampled_from(toks)),)
+            self._do(["p_next_buf", list(c)])
+
+        @precondition(lambda self: self.sim is not None and self.sim.kind in IS_LM)
+        @rule(data=st.data())
+        def model_call(self, data):
+            c = tuple(t for t in self._context(data) if t != EOS)
+            name = "model_logp" if self.sim.kind == "EarleyLM_R" and data.draw(st.booleans()) else "model_call"
+            self._do([name, list(c)])
 
         @rule(data=st.data())
         def call(self, data):
